@@ -3,7 +3,7 @@
    block, touch of released memory, failed CBOR_ASSERT and fuel exhaustion is the value Fault /
    LFault / SFault / None, so "memory-safe, assertion-clean, terminates" is "never that value". *)
 From CB Require Import Word PStream SpecHead PItem SpecItem PBuild SpecParse PRun
-  PStream_proofs PItem_proofs PLoad_proofs PFinal PFinal2 HHeap HItems HRef_proofs HOps HRead_proofs.
+  PStream_proofs PItem_proofs PLoad_proofs PFinal PFinal2 HHeap HItems HRef_proofs HOps HRead_proofs HCont_proofs HCopy_proofs HLoad_proofs.
 Local Open Scope N_scope.
 
 (* the streaming decoder reads only bytes inside the caller's buffer, for every buffer *)
@@ -38,3 +38,26 @@ Theorem C01_release_safe : forall own own' ownd a w,
   exists w', decref a w = Ret tt w' /\ Inv own ownd [] w' /\ exists evs, Seg w evs w'.
 Proof. exact decref_ok. Qed.
 Print Assumptions C01_release_safe.
+
+(* the heap-level decoder: for every buffer, limit and allocator behaviour it returns; no assertion of the builder fails, no push overflows its container, no released or NULL memory is touched *)
+Theorem C01_load_h_never_faults :
+  forall (refuse : N -> N -> bool) (L : N) (own ownd : addr -> N)
+           (buf : list N) (w : world),
+         bytes_ok buf ->
+         (len buf < SIZE_MAX)%N ->
+         HCont_proofs.wf w ->
+         Inv own ownd [] w ->
+         exists (r : hres) (w' : world), load_h refuse L buf w = Ret r w'.
+Proof. exact load_h_never_faults. Qed.
+Print Assumptions C01_load_h_never_faults.
+
+(* cbor_copy of any readable tree never faults *)
+Theorem C01_copy_never_faults :
+  forall (refuse : N -> N -> bool) (fuel : nat) 
+           (a : addr) (w : world) (own ownd : addr -> N) 
+           (k : fkind),
+         Inv own ownd [] w ->
+         shaped fuel (heap w) a -> copy refuse fuel a w <> Fault k.
+Proof. exact copy_never_faults. Qed.
+Print Assumptions C01_copy_never_faults.
+
